@@ -257,3 +257,235 @@ def passes_or_ends_empty(prog, b, start_bb, through, buf, flag_fn, sugg_ty, empt
                 if out_ty == sugg_ty and n not in empty_ctors:
                     return False, x
     return True, None
+
+
+def plain_options(rule, prog, getters):
+    """Shared rule body: each named Config getter is a plain record read — `get_x` returns one field of the receiver and nothing else,
+    exactly one setter stores its bool parameter unchanged into that field (and writes nothing else), no other Config method writes the
+    field, and the exported C setter passes the caller's value through.  A property that says "with the option on/off" speaks of the
+    value the front end has set: an accessor that mixes another option in, inverts or defaults the value makes the option the rules
+    test a different one from the option the user set."""
+    from . import builders
+    cfg = builders.CONFIG if hasattr(builders, "CONFIG") else "config::Config"
+    cfg_fns = {k: f for k, f in prog.fns.items() if ((f.get("impl") or {}).get("self") or "") == cfg and not (f.get("impl") or {}).get("trait")}
+    exported = [k for k, f in prog.fns.items() if f.get("no_mangle")]
+    for g in sorted(set(getters)):
+        key = "option:%s" % g
+        gk = [k for k in cfg_fns if k.rsplit("::", 1)[-1] == g]
+        if len(gk) != 1:
+            rule.undecidable(key, "Config getter %s not found uniquely" % g)
+            continue
+        gb = prog.raw_body(gk[0])
+        ret = strip_refs(gb.expr_local(0))
+        sp = self_path(ret)
+        if len(gb.rblocks) != 1 or gb.calls() or sp is None or len(sp) != 1:
+            rule.violation(key, "%s does not simply return one field of the configuration (it returns %r): the option the rules test is not the value the front end set"
+                           % (g, ret), fn_line(prog, gk[0]))
+            continue
+        field = sp[0]
+        writers = []
+        for k in sorted(cfg_fns):
+            b = prog.raw_body(k)
+            for (i, j, st) in b.stmts():
+                if st["k"] == "assign" and st["place"]["l"] == 1 and len(st["place"]["p"]) == 2 and st["place"]["p"][0] == "*" \
+                        and isinstance(st["place"]["p"][1], dict) and st["place"]["p"][1].get("n") == field:
+                    writers.append((k, b, st))
+        if len(writers) != 1:
+            rule.violation(key, "the field %s behind %s is written by %d Config methods (%s); expected exactly one setter" %
+                           (field, g, len(writers), ", ".join(w[0].rsplit("::", 1)[-1] for w in writers)), fn_line(prog, gk[0]))
+            continue
+        sk, sb, st = writers[0]
+        val = strip_refs(sb.expr_rvalue(st["rv"]))
+        other_writes = [s2 for (i, j, s2) in sb.stmts() if s2["k"] == "assign" and s2["place"]["l"] == 1 and s2["place"]["p"] and s2 is not st]
+        if not (val.k == "arg" and val.a[0] == 2) or len(sb.rblocks) != 1 or sb.calls() or other_writes or prog.fns[sk].get("inputs", [None, None])[1:] != ["bool"]:
+            rule.violation(key, "the setter %s stores %r into %s (expected: its bool parameter, unchanged, and nothing else)" % (sk.rsplit("::", 1)[-1], val, field),
+                           fn_line(prog, sk))
+            continue
+        passes = []
+        for ek in exported:
+            eb = prog.raw_body(ek)
+            for (bb, t) in eb.calls():
+                if callee_name(t) == sk:
+                    a = strip_refs(eb.expr_operand(t["args"][1]))
+                    passes.append((ek, a.k == "arg" and a.a[0] == 2))
+        if len(passes) != 1 or not passes[0][1]:
+            rule.violation(key, "the setter %s is reached from %d exported functions %s; expected one that passes the caller's value through unchanged"
+                           % (sk.rsplit("::", 1)[-1], len(passes), [p[0] for p in passes if not p[1]] or ""), fn_line(prog, sk))
+            continue
+        rule.ok(key, "%s = self.%s; set only by %s(value) ← %s(ptr, value)" % (g, field, sk.rsplit("::", 1)[-1], passes[0][0].rsplit("::", 1)[-1]))
+
+
+def context_delegation(rule, prog, names):
+    """Shared rule body: the context's (and the C API's) entry point for each named trait method is a delegation — exactly one RitiContext
+    method performs the virtual call `Method::<name>` on the stored method object, that call is executed on every path (it dominates every
+    return), the caller's parameters are passed through unchanged and, where a value is returned, the returned value is the call's own
+    result.  What the properties say about a key / back-space / session query is said about the method object's answer; an entry point
+    that answers from a cached copy, rewrites an argument or skips the call makes the observed behaviour a different function."""
+    ctx_ty = "context::RitiContext"
+    trait = "context::Method"
+    for nm in names:
+        key = "delegates:%s" % nm
+        hosts = []
+        for k, f in sorted(prog.fns.items()):
+            if ((f.get("impl") or {}).get("self") or "") != ctx_ty or (f.get("impl") or {}).get("trait"):
+                continue
+            b = prog.raw_body(k)
+            sites = [bb for (bb, t) in b.calls() if (t.get("callee") or {}).get("path") == "%s::%s" % (trait, nm) and (t.get("callee") or {}).get("rkind") == "virtual"]
+            if sites:
+                hosts.append((k, b, sites))
+        if len(hosts) != 1 or len(hosts[0][2]) != 1:
+            rule.violation(key, "expected exactly one RitiContext method performing the virtual call Method::%s, found %s" % (nm, [(h[0], len(h[2])) for h in hosts]), None)
+            continue
+        k, b, (site,) = hosts[0]
+        t = b.blocks[site]["term"]
+        rets = [i for i in b.rblocks if b.blocks[i]["term"]["k"] == "return"]
+        if not rets or not all(b.dominates(site, r) for r in rets):
+            rule.violation(key, "%s can return without calling the method object's %s" % (k.rsplit("::", 1)[-1], nm), site_dict(prog, k, b, site))
+            continue
+        bad_arg = None
+        nxt = 2
+        for a in t["args"][1:]:
+            e = strip_refs(b.expr_operand(a))
+            if e.k == "arg" and e.a[0] == nxt:
+                nxt += 1
+                continue
+            sp = self_path(e)
+            if sp is not None and len(sp) == 1:
+                continue                                  # &self.data / &self.config
+            bad_arg = e
+            break
+        if bad_arg is not None:
+            rule.violation(key, "%s passes %r to the method object's %s instead of its own parameter" % (k.rsplit("::", 1)[-1], bad_arg, nm), site_dict(prog, k, b, site))
+            continue
+        if prog.fns[k].get("output") not in ("()", None):
+            ret = strip_refs(b.expr_local(0))
+            if not (ret.k == "call" and ret.a[2] == site):
+                rule.violation(key, "%s returns %r, not the answer of the method object's %s" % (k.rsplit("::", 1)[-1], ret, nm), fn_line(prog, k))
+                continue
+            # the exported wrapper hands the same value out (scalar results only; boxed results are C19's pairs)
+            if prog.fns[k].get("output") == "bool":
+                ex = []
+                for ek, ef in sorted(prog.fns.items()):
+                    if not ef.get("no_mangle"):
+                        continue
+                    eb = prog.raw_body(ek)
+                    for (bb2, t2) in eb.calls():
+                        if callee_name(t2) == k:
+                            ex.append((ek, eb, bb2))
+                if len(ex) != 1:
+                    rule.violation(key, "expected one exported function calling %s, found %d" % (k, len(ex)), fn_line(prog, k))
+                    continue
+                ek, eb, bb2 = ex[0]
+                r2 = strip_refs(eb.expr_local(0))
+                alts = list(r2.a[0]) if r2.k == "phi" else [r2]
+                if not any(strip_refs(x).k == "call" and strip_refs(x).a[2] == bb2 for x in alts) or any(strip_refs(x).k not in ("call", "const") for x in alts):
+                    rule.violation(key, "%s returns %r, not the context's answer" % (ek, r2), fn_line(prog, ek))
+                    continue
+        rule.ok(key, "%s → Method::%s with its parameters passed through%s" % (k.rsplit("::", 1)[-1], nm, "" if prog.fns[k].get("output") in ("()", None) else "; returns the call's result"))
+
+
+def site_dict(prog, k, b, bb):
+    from engine.report import site_of
+    return site_of(b, bb)
+
+
+def splitter_char_tests(prog, sp):
+    """Single characters the splitter (with its private helpers and closures) compares the scanned character with (`c == ':'`, a `match`
+    arm): [(char, where)].  Together with splitter_sets these are all the characters the splitter can treat specially."""
+    out = []
+    for k in sorted(prog.reach([sp], foreign_trait_impls=False)):
+        b = prog.body(k)
+        for i in b.rblocks:
+            for st in b.blocks[i]["stmts"]:
+                if st["k"] == "assign" and st["rv"]["k"] == "binop" and st["rv"]["op"] in ("Eq", "Ne"):
+                    for o in (st["rv"]["l"], st["rv"]["r"]):
+                        if o["k"] == "const" and o.get("char") is not None and o.get("ty") == "char":
+                            out.append((o["char"], (k, i)))
+            t = b.blocks[i]["term"]
+            if t["k"] == "switch" and t.get("discr_ty") == "char":
+                for v, _ in t["targets"]:
+                    out.append((chr(v), (k, i)))
+    return out
+
+
+LOAD_WRAPPERS = ("::unwrap", "::expect", "::ok", "::unwrap_or_default", "Try>::branch", "::into", "::from")
+
+
+def verbatim_loads(rule, prog, ctor, adt_path, fields, what):
+    """Shared rule body: each named field of `adt_path` built by `ctor` is the deserialised file as it is — the operand's value is
+    `serde_json::from_*(…)` behind nothing but Option/Result plumbing, and no local it passes through is ever borrowed mutably
+    (no insert / retain / entry / sort between reading the file and storing the table).  The properties speak of what the data /
+    layout *file* assigns; a loader that completes, prunes or rewrites entries makes the table the rules read a different one."""
+    from . import roles as _roles
+    from engine.analyses import contains_call
+    b = _roles.ib(prog, ctor)
+    aggs = [(i, st) for i in b.rblocks for st in b.blocks[i]["stmts"]
+            if st["k"] == "assign" and st["rv"]["k"] == "aggregate" and st["rv"].get("agg") == "adt" and st["rv"].get("adt") == adt_path]
+    if not aggs:
+        rule.undecidable("load", "%s does not build a %s" % (ctor, adt_path), fn_line(prog, ctor))
+        return
+    mut_borrowed = {}
+    for (i, j, st) in b.stmts():
+        if st["k"] == "assign" and st["rv"]["k"] == "ref" and st["rv"].get("mut"):
+            mut_borrowed.setdefault(st["rv"]["place"]["l"], (i, st))
+    for f in fields:
+        key = "load:%s" % f
+        verdict = None
+        n_loaded = 0
+        for (i, st) in aggs:
+            names = [str(x) for x in st["rv"].get("fields") or []]
+            if f not in names:
+                continue
+            op = st["rv"]["ops"][names.index(f)]
+            e = strip_refs(b.expr_operand(op))
+            if contains_call(e, lambda n: "serde_json" in n and "from_" in n) is None:
+                continue                               # the empty-table constructor (verbose / default variants)
+            n_loaded += 1
+            x = e
+            ok = True
+            while True:
+                x = strip_refs(x)
+                if x.k == "call" and "serde_json" in x.a[0] and "from_" in x.a[0]:
+                    break
+                if x.k == "call" and x.a[1] and any(x.a[0].endswith(w) or w in x.a[0] for w in LOAD_WRAPPERS):
+                    x = x.a[1][0]
+                    continue
+                if x.k in ("field", "downcast"):
+                    x = x.a[0]
+                    continue
+                if x.k == "phi":
+                    alts = [a for a in x.a[0] if not (strip_refs(a).k == "agg" and str(strip_refs(a).a[0]).endswith(("Option::None", "ControlFlow::Break")))]
+                    if len(alts) == 1:
+                        x = alts[0]
+                        continue
+                if x.k == "agg" and str(x.a[0]).endswith(("Option::Some", "Result::Ok", "ControlFlow::Continue")) and len(x.a[1]) == 1:
+                    x = x.a[1][0]
+                    continue
+                ok = False
+                break
+            if not ok:
+                verdict = ("the %s stored in %s.%s is %r — not the deserialised file as it is" % (what, adt_path.rsplit("::", 1)[-1], f, e), site_dict(prog, ctor, b, i))
+                break
+            # locals the value travels through
+            if op["k"] != "const":
+                l = op["place"]["l"]
+                chain_ = [l]
+                for _ in range(8):
+                    wd = b.whole_defs(l)
+                    if len(wd) == 1 and wd[0][2] == "assign" and wd[0][3]["rv"]["k"] == "use" and wd[0][3]["rv"]["op"].get("k") in ("move", "copy"):
+                        l = wd[0][3]["rv"]["op"]["place"]["l"]
+                        chain_.append(l)
+                        continue
+                    break
+                hit = [c for c in chain_ if c in mut_borrowed]
+                if hit:
+                    bi, bst = mut_borrowed[hit[0]]
+                    verdict = ("the %s is modified between reading the file and storing it in %s.%s (a mutable borrow of the loaded table): the table is no "
+                               "longer what the file assigns" % (what, adt_path.rsplit("::", 1)[-1], f), site_dict(prog, ctor, b, bi))
+                    break
+        if verdict is not None:
+            rule.violation(key, verdict[0], verdict[1])
+        elif n_loaded == 0:
+            rule.undecidable(key, "no construction of %s.%s from a deserialised file found in %s" % (adt_path, f, ctor), fn_line(prog, ctor))
+        else:
+            rule.ok(key, "%s.%s = the deserialised file, unmodified" % (adt_path.rsplit("::", 1)[-1], f))
